@@ -72,7 +72,7 @@ func hashHistory(c *simkit.Choice, r *simkit.Rec) {
 	var ops []string
 	written := 0 // bytes since last Reset (tracked only for reach probes)
 	off := 0
-	scratch := make([]byte, 0, 8192)
+	scratch := make([]byte, 0, 8192+64)
 	sums := 0
 	lastWasSum := false
 	check := func(site string, got, want []byte) bool {
@@ -301,7 +301,20 @@ func hashPBKDF2(c *simkit.Choice, r *simkit.Rec) {
 	kl := []int{1, 16, 32, 33, 48, 64, 100}[c.Choose(7, simkit.LScen)]
 	r.Config = "pbkdf2"
 	r.Sig(uint64(len(pw))<<24 | uint64(len(salt))<<16 | uint64(iter)<<8 | uint64(kl) | 3<<40)
-	x := pbkdf2.Key(pw, salt, iter, kl, sm3.New)
+	var x []byte
+	func() {
+		// x/crypto/pbkdf2 accumulates output with Sum(b); a hash that breaks the
+		// Sum contract makes it index out of range inside pbkdf2 itself.
+		defer func() {
+			if e := recover(); e != nil {
+				r.Violate("pbkdf2-panic", "pbkdf2(sm3.New)", fmt.Sprintf("pbkdf2.Key over sm3.New panicked: %v", e))
+			}
+		}()
+		x = pbkdf2.Key(pw, salt, iter, kl, sm3.New)
+	}()
+	if r.Violation() != nil {
+		return
+	}
 	y := pbkdf2.Key(pw, salt, iter, kl, refsm3.New)
 	if !bytes.Equal(x, y) {
 		r.Violate("pbkdf2-mismatch", "pbkdf2(sm3.New)", fmt.Sprintf("pw %d salt %d iter %d keyLen %d: got %x want %x", len(pw), len(salt), iter, kl, x, y))
